@@ -35,6 +35,9 @@ func NewNetConnectionServerCommunicator(server *dns.Server) (*NetConnectionServe
 	c := &NetConnectionServerCommunicator{
 		server: server,
 	}
+	// Every endpoint answers its own queries (the library's default handler table is shared by the whole process:
+	// with two DNS endpoints the one registered last used to get the queries of both)
+	server.Handler = dns.HandlerFunc(c.handleRequest)
 	err := make(chan error, 0)
 
 	go func() {
@@ -48,7 +51,6 @@ func NewNetConnectionServerCommunicator(server *dns.Server) (*NetConnectionServe
 		// continue
 	}
 
-	dns.HandleFunc(".", c.handleRequest)
 	return c, nil
 
 }
